@@ -1533,7 +1533,14 @@ class DiameterMessage:
 
 
     def __setitem__(self, idx: int, value: DiameterAVP) -> None:
+        old = self._avps[idx]
         self._avps[idx] = value
+
+        for key, item in list(self.__dict__.items()):
+            if item is old and key != "_header":
+                self.__dict__[key] = value
+
+        self.refresh()
 
 
     @property
